@@ -52,6 +52,8 @@ pub enum Scenario {
     AcceptWelcome,
     CreateGroup,
     CreateMessage,
+    /// process_message(own application message coming back from the relay)
+    OwnMessageEcho,
     /// self_update (creates a pending commit)
     SelfUpdateCall,
     RawSnapshot,
@@ -292,6 +294,13 @@ fn build(case: &Case) -> Result<Option<Built>, Failure> {
         S::App => {
             w.apply_op(&Op::Msg { m: sel_in(&w, 0), kind: 1, at: 1, tag: 1 }, &mut obs)?;
             (Target::Deliver(w.relay.last().unwrap().ev.clone()), "process_message(application)".into())
+        }
+        S::OwnMessageEcho => {
+            w.apply_op(&Op::Msg { m: sel_in(&w, v), kind: 1, at: 1, tag: 1 }, &mut obs)?;
+            if w.relay.len() == before || w.relay.last().unwrap().author != v {
+                return Ok(None);
+            }
+            (Target::Deliver(w.relay.last().unwrap().ev.clone()), "process_message(own application message echo)".into())
         }
         S::Proposal | S::ProposalAtAdmin => {
             if members < 3 {
@@ -751,7 +760,7 @@ fn enumerate(case: &Case, b: &Built, mode: Mode, rep: &mut CaseReport, trace: &m
             "between-first-and-last-write"
         };
         let finding = if zone == "between-first-and-last-write" {
-            classify_finding(&mdk, &gid, &b.target, phase)
+            classify_finding(case.scenario, &b.target)
         } else if !b.prelude.is_empty() && zone != "after-the-last-write" && phase == "nothing-persisted" {
             // commit-with-rollback: the reopened instance has forgotten the timestamp of the
             // commit it had applied, so the better commit can no longer displace it (listed for
@@ -802,12 +811,19 @@ fn describe_diff(a: &Observed, b: &Observed) -> String {
 /// own state (ratchet generation, merged tree, ...) with separate autocommitted statements
 /// while mdk-core records its part later. They are only ever considered for crash points
 /// strictly between the call's first and last durable write (see `zone` at the call site).
-fn classify_finding(_mdk: &AnyMdk, _gid: &GroupId, t: &Target, _phase: &str) -> Option<&'static str> {
-    match t {
-        Target::Deliver(_) if APP_TARGET.with(|a| a.get()) => Some("O18-message-lost-when-crash-hits-after-ratchet-step"),
-        Target::Deliver(ev) if ev.kind == Kind::MlsGroupMessage => Some("O17-commit-processing-is-not-atomic"),
-        Target::Merge => Some("O17-commit-processing-is-not-atomic"),
-        Target::AcceptWelcome(..) => Some("O32-accept-welcome-is-not-atomic"),
+fn classify_finding(scenario: Scenario, t: &Target) -> Option<&'static str> {
+    use Scenario as S;
+    match (scenario, t) {
+        (S::App, Target::Deliver(_)) => Some("O18-message-lost-when-crash-hits-after-ratchet-step"),
+        // calls that decrypt a handshake message of a peer (its ratchet step is persisted first)
+        // and / or merge a commit (a peer's, the own one, the auto-commit of a leave)
+        (S::Commit | S::CommitWithRollback | S::OwnCommitEcho | S::CommitEvictingVictim | S::ProposalAtAdmin | S::Proposal, Target::Deliver(_)) => {
+            Some("O17-commit-processing-is-not-atomic")
+        }
+        (S::MergePending, Target::Merge) => Some("O17-commit-processing-is-not-atomic"),
+        (_, Target::AcceptWelcome(..)) => Some("O32-accept-welcome-is-not-atomic"),
+        // confirming an own message, storing an invitation: no OpenMLS ratchet or merge is
+        // involved, nothing is excused
         _ => None,
     }
 }
@@ -816,7 +832,7 @@ fn strategy(tier: Tier) -> BoxedStrategy<Case> {
     use Scenario as S;
     let scen = prop::sample::select(vec![
         S::App, S::Proposal, S::ProposalAtAdmin, S::Commit, S::Commit, S::CommitWithRollback, S::OwnCommitEcho, S::MergePending,
-        S::CommitEvictingVictim, S::ProcessWelcome, S::AcceptWelcome, S::CreateGroup, S::CreateMessage, S::SelfUpdateCall,
+        S::CommitEvictingVictim, S::ProcessWelcome, S::AcceptWelcome, S::CreateGroup, S::CreateMessage, S::OwnMessageEcho, S::SelfUpdateCall,
         S::RawSnapshot, S::RawRollback, S::RawRelays,
     ]);
     let stride: BoxedStrategy<u8> = match tier {
